@@ -1,5 +1,5 @@
 From Coq Require Import List Arith Bool String Ascii.
-From Wire Require Import Sets Acyclic Solve.
+From Wire Require Import Sets Acyclic Solve Names Front.
 Import ListNotations.
 
 (* The concrete executable model of Wire's analysis (internal/wire/analyze.go and the tail of
@@ -16,9 +16,57 @@ Record value := mkVal { vl_id : nat; vl_out : nat; vl_ok : bool }.   (* vl_ok: a
 Record field := mkField { fd_id : nat; fd_pkg : nat; fd_parent : nat; fd_name : string; fd_outs : list nat }.
 Record binding := mkBind { bd_id : nat; bd_iface : nat; bd_conc : nat }.
 
+(* wire.Struct(new(T), lits...) as written: the struct's declared fields (with tags) and the source text of
+   the field-name literals; parse.go:processStructProvider turns it into a provider or a diagnostic *)
+Record sprov := mkSProv {
+  sp_id : nat; sp_pkg : nat; sp_name : string; sp_t : nat; sp_tptr : nat;
+  sp_fields : list sfield; sp_lits : list string }.
+
 Inductive rset :=
-| RSet (id : nat) (imports : list rset) (provs : list provider) (vals : list value)
+| RSet (id : nat) (imports : list rset) (provs : list provider) (sprovs : list sprov) (vals : list value)
        (flds : list field) (binds : list binding).
+
+(* item error classes *)
+Definition ec_dup_param := 1.
+Definition ec_dup_field := 2.
+Definition ec_not_field := 3.
+Definition ec_prevented := 4.
+
+Fixpoint select_fields (lits : list string) (fields : list sfield) (id : nat) : list sfield + serr :=
+  match lits with
+  | [] => inl []
+  | l :: r =>
+    match check_field l fields with
+    | CfNotField => inr (SItem ec_not_field id)
+    | CfPrevented => inr (SItem ec_prevented id)
+    | CfOk f => match select_fields r fields id with inl fs => inl (f :: fs) | inr e => inr e end
+    end
+  end.
+
+Definition struct_provider (s : sprov) : provider + serr :=
+  let sel := if all_fields (sp_lits s) then inl (star_fields (sp_fields s))
+             else select_fields (sp_lits s) (sp_fields s) (sp_id s) in
+  match sel with
+  | inr e => inr e
+  | inl fs =>
+    match first_dup (map sf_type fs) [] with
+    | Some t => inr (SItem ec_dup_field t)
+    | None => inl (mkProv (sp_id s) (sp_pkg s) (sp_name s) (map sf_type fs) (map sf_name fs)
+                          false true [sp_t s; sp_tptr s] false false)
+    end
+  end.
+
+Definition func_provider_errs (p : provider) : list serr :=
+  if pv_struct p then [] else
+  match first_dup (pv_args p) [] with Some t => [SItem ec_dup_param t] | None => [] end.
+
+Definition sprov_errs (s : sprov) : list serr :=
+  match struct_provider s with inr e => [e] | inl _ => [] end.
+Definition sprov_oks (s : sprov) : list provider :=
+  match struct_provider s with inl p => [p] | inr _ => [] end.
+
+Definition all_provs (provs : list provider) (sprovs : list sprov) : list provider :=
+  provs ++ flat_map sprov_oks sprovs.
 
 Inductive what := WhArg (i : nat) | WhProv (p : provider) | WhVal (v : value) | WhField (f : field).
 Inductive src := SArg (i : nat) | SProv (id : nat) | SVal (id : nat) | SField (id : nat) | SBind (id : nat) | SImport (sid : nat).
@@ -45,11 +93,12 @@ Definition direct_entries (provs : list provider) (vals : list value) (flds : li
 
 Fixpoint to_core (args : list nat) (s : rset) : pset entry :=
   match s with
-  | RSet id imports provs vals flds binds =>
+  | RSet id imports provs sprovs vals flds binds =>
     PSet id (arg_entries 0 args)
          ((fix go (l : list rset) : list (pset entry) :=
              match l with [] => [] | x :: r => to_core [] x :: go r end) imports)
-         (direct_entries provs vals flds)
+         (flat_map func_provider_errs provs ++ flat_map sprov_errs sprovs)
+         (direct_entries (all_provs provs sprovs) vals flds)
          (map bind_triple binds)
   end.
 
@@ -109,7 +158,8 @@ Inductive diag :=
 | DMulti (t : nat) | DBindMissing (i c : nat) | DCycle (l : list nat) | DFuel
 | DNoProvider (t : nat)
 | DUnusedSet (sid : nat) | DUnusedProv (id : nat) | DUnusedVal (id : nat) | DUnusedBind (id : nat) | DUnusedField (id : nat)
-| DNeedsCleanup (t : nat) | DNeedsErr (t : nat) | DValueAccess (t : nat).
+| DNeedsCleanup (t : nat) | DNeedsErr (t : nat) | DValueAccess (t : nat)
+| DItem (code : nat) (t : nat).
 
 Definition diag_of_serr (e : serr) : diag :=
   match e with
@@ -117,6 +167,7 @@ Definition diag_of_serr (e : serr) : diag :=
   | SBindMissing i c => DBindMissing i c
   | SCycle l => DCycle l
   | SFuel => DFuel
+  | SItem c t => DItem c t
   end.
 
 Definition src_eqb (a b : src) : bool :=
@@ -128,14 +179,14 @@ Definition src_eqb (a b : src) : bool :=
 
 Definition used_in (used : list src) (s : src) : bool := existsb (src_eqb s) used.
 
-Definition rset_id (s : rset) : nat := match s with RSet id _ _ _ _ _ => id end.
+Definition rset_id (s : rset) : nat := match s with RSet id _ _ _ _ _ _ => id end.
 
 (* analyze.go:verifyArgsUsed: imports, providers, values, bindings, fields, in that order *)
 Definition verify_args_used (root : rset) (used : list src) : list diag :=
   match root with
-  | RSet _ imports provs vals flds binds =>
+  | RSet _ imports provs sprovs vals flds binds =>
     map (fun s => DUnusedSet (rset_id s)) (filter (fun s => negb (used_in used (SImport (rset_id s)))) imports) ++
-    map (fun p => DUnusedProv (pv_id p)) (filter (fun p => negb (used_in used (SProv (pv_id p)))) provs) ++
+    map (fun p => DUnusedProv (pv_id p)) (filter (fun p => negb (used_in used (SProv (pv_id p)))) (all_provs provs sprovs)) ++
     map (fun v => DUnusedVal (vl_id v)) (filter (fun v => negb (used_in used (SVal (vl_id v)))) vals) ++
     map (fun b => DUnusedBind (bd_id b)) (filter (fun b => negb (used_in used (SBind (bd_id b)))) binds) ++
     map (fun f => DUnusedField (fd_id f)) (filter (fun f => negb (used_in used (SField (fd_id f)))) flds)
@@ -227,7 +278,7 @@ Definition diag_eqb (a b : diag) : bool :=
   | DUnusedSet x, DUnusedSet y | DUnusedProv x, DUnusedProv y | DUnusedVal x, DUnusedVal y
   | DUnusedBind x, DUnusedBind y | DUnusedField x, DUnusedField y
   | DNeedsCleanup x, DNeedsCleanup y | DNeedsErr x, DNeedsErr y | DValueAccess x, DValueAccess y => Nat.eqb x y
-  | DBindMissing i c, DBindMissing i' c' => Nat.eqb i i' && Nat.eqb c c'
+  | DBindMissing i c, DBindMissing i' c' | DItem i c, DItem i' c' => Nat.eqb i i' && Nat.eqb c c'
   | DCycle l, DCycle l' => list_eqb Nat.eqb l l'
   | DFuel, DFuel => true
   | _, _ => false
